@@ -15,6 +15,15 @@ cp .work/gen0/facts.json .work/facts.json
 cp .work/gen0/routes_glue_test.go .work/routes_glue_test.go
 rm -rf .work/gen0
 ( cd lean && lake build )
+# the judge: same Model/Driver, built against the committed facts snapshot (lean-judge/KM/Gen)
+python3 - <<'PY'
+import sys, os
+sys.path.insert(0, os.getcwd())
+from checks import common as c
+ctx = c.Ctx("setup", "quick", 1)
+print("judge:", c.build_judge(ctx), ctx.coverage.get("judge_facts_snapshot"), ctx.notes[-1:] )
+ctx.cleanup()
+PY
 # warm the go build cache for the harness packages
 python3 - <<'PY'
 import sys, os
